@@ -44,6 +44,30 @@
 #include "stir/recon_buildblock/Reconstruction.h"
 #include "stir/scatter/ScatterSimulation.h"
 #include "stir/spatial_transformation/SpatialTransformation.h"
+// concrete classes that are copied by construction / assignment (copies of a used object, see check_copies)
+#include "stir/Shape/Ellipsoid.h"
+#include "stir/Shape/EllipsoidalCylinder.h"
+#include "stir/Shape/Box3D.h"
+#include "stir/recon_buildblock/QuadraticPrior.h"
+#include "stir/recon_buildblock/RelativeDifferencePrior.h"
+#include "stir/recon_buildblock/LogcoshPrior.h"
+#include "stir/recon_buildblock/PLSPrior.h"
+#include "stir/recon_buildblock/FilterRootPrior.h"
+#include "stir/SeparableGaussianImageFilter.h"
+#include "stir/SeparableCartesianMetzImageFilter.h"
+#include "stir/SeparableConvolutionImageFilter.h"
+#include "stir/MedianImageFilter3D.h"
+#include "stir/MinimalImageFilter3D.h"
+#include "stir/MaximalImageFilter3D.h"
+#include "stir/ThresholdMinToSmallPositiveValueDataProcessor.h"
+#include "stir/TruncateToCylindricalFOVImageProcessor.h"
+#include "stir/ChainedDataProcessor.h"
+#include "stir/recon_buildblock/TrivialBinNormalisation.h"
+#include "stir/recon_buildblock/ForwardProjectorByBinUsingProjMatrixByBin.h"
+#include "stir/recon_buildblock/BackProjectorByBinUsingProjMatrixByBin.h"
+#include "stir/recon_buildblock/ProjectorByBinPairUsingProjMatrixByBin.h"
+#include <type_traits>
+#include <typeinfo>
 #include <sys/mman.h>
 #include <sys/wait.h>
 #include <sys/stat.h>
@@ -69,6 +93,8 @@ struct Shared
   int ncount; SharedCounter counts[600];
   int nobs; char obs[16][500];
   char text_a[1 << 16], text_b[1 << 16], text_c[4096];
+  char copy_routes[1024];                   // part R: routes by which copies of the used object were made (','-separated)
+  int used_alt_text;                        // part R: the class was set up from the harness' minimal text because '<start keyword> :=' is rejected
   int status;
 };
 static Shared* SH = nullptr;
@@ -341,12 +367,17 @@ struct Root
   std::string label;
   std::function<void(std::ostream&)> list;
   std::function<RegisteredObjectBase*(std::istream*, const std::string&)> read;
+  std::function<RegisteredObjectBase*(RegisteredObjectBase*)> clone; // empty when the registry's root class offers no clone()
 };
+template <class R, class = void> struct HasClone : std::false_type {};
+template <class R> struct HasClone<R, std::void_t<decltype(std::declval<const R&>().clone())>> : std::true_type {};
 template <class R>
 static Root make_root(const char* label)
 {
   Root r;
   r.label = label;
+  if constexpr (HasClone<R>::value)
+    r.clone = [](RegisteredObjectBase* o) -> RegisteredObjectBase* { R* p = dynamic_cast<R*>(o); return p ? p->clone() : nullptr; };
   r.list = [](std::ostream& s) { R::list_registered_names(s); };
   r.read = [](std::istream* in, const std::string& n) -> RegisteredObjectBase* { return R::read_registered_object(in, n); };
   return r;
@@ -391,6 +422,121 @@ static std::vector<std::string> registered_names(const Root& r)
       if (!t.empty() && t != "None") v.push_back(t);
     }
   return v;
+}
+
+// ================================================================================================ copies of a used object
+// A registered object that was parsed from text and has printed itself ("used") is copied through every route the class
+// offers: clone() of the registry's root class, and - for the concrete classes listed below, matched by dynamic type -
+// copy construction, assignment to a fresh object and assignment to an object that has itself been used.  Of every copy the
+// same is required as of the original: parameter_info() prints the original's text, that text is accepted when parsed into
+// the copy, and the copy then prints the same text again.
+struct CopyOut { std::string route; shared_ptr<RegisteredObjectBase> obj; };
+struct CopyFail { std::string what, route, msg; };
+template <class T>
+static bool concrete_routes(RegisteredObjectBase* o, std::vector<CopyOut>& out)
+{
+  if constexpr (std::is_copy_constructible<T>::value && std::is_copy_assignable<T>::value && std::is_default_constructible<T>::value && !std::is_abstract<T>::value)
+    {
+      T* p = dynamic_cast<T*>(o);
+      if (!p || typeid(*p) != typeid(T)) return false;
+      out.push_back({ "copy_construction", shared_ptr<RegisteredObjectBase>(new T(*p)) });
+      { shared_ptr<T> a(new T); *a = *p; out.push_back({ "assignment_to_fresh_object", a }); }
+      { shared_ptr<T> b(new T); (void)b->parameter_info(); *b = *p; out.push_back({ "assignment_to_used_object", b }); }
+      return true;
+    }
+  else
+    return false;
+}
+typedef bool (*ConcreteFn)(RegisteredObjectBase*, std::vector<CopyOut>&);
+static const std::vector<ConcreteFn>& concrete_table()
+{
+  static const std::vector<ConcreteFn> v = {
+    &concrete_routes<Ellipsoid>, &concrete_routes<EllipsoidalCylinder>, &concrete_routes<Box3D>,
+    &concrete_routes<QuadraticPrior<float>>, &concrete_routes<RelativeDifferencePrior<float>>, &concrete_routes<LogcoshPrior<float>>, &concrete_routes<PLSPrior<float>>,
+    &concrete_routes<FilterRootPrior<Dens>>,
+    &concrete_routes<SeparableGaussianImageFilter<float>>, &concrete_routes<SeparableCartesianMetzImageFilter<float>>, &concrete_routes<SeparableConvolutionImageFilter<float>>,
+    &concrete_routes<MedianImageFilter3D<float>>, &concrete_routes<MinimalImageFilter3D<float>>, &concrete_routes<MaximalImageFilter3D<float>>,
+    &concrete_routes<ThresholdMinToSmallPositiveValueDataProcessor<Dens>>, &concrete_routes<TruncateToCylindricalFOVImageProcessor<float>>, &concrete_routes<ChainedDataProcessor<Dens>>,
+    &concrete_routes<TrivialBinNormalisation>,
+    &concrete_routes<ForwardProjectorByBinUsingProjMatrixByBin>, &concrete_routes<BackProjectorByBinUsingProjMatrixByBin>, &concrete_routes<ProjectorByBinPairUsingProjMatrixByBin>,
+  };
+  return v;
+}
+// parse 'text' into an existing object and print it again: 0 same text, 1 rejected, 2 prints differently, 3 not a ParsingObject
+static int reparse_into(RegisteredObjectBase* o, const std::string& text, std::string& detail)
+{
+  ParsingObject* p = dynamic_cast<ParsingObject*>(o);
+  if (!p) return 3;
+  clear_msgs();
+  bool ok = false;
+  try { std::istringstream in(text); ok = p->parse(in); }
+  catch (std::exception& e) { detail = std::string("exception: ") + short_text(e.what(), 200); return 1; }
+  if (!ok) { detail = short_text(g_warn.buf, 300); return 1; }
+  const std::string t = o->parameter_info();
+  if (no_blank_lines(t) != no_blank_lines(text)) { detail = first_diff(text, t); return 2; }
+  return 0;
+}
+static bool g_check_copies = true;
+// obj: a used object (parsed from text; 't' is what its parameter_info() has just returned).  Returns the routes taken.
+static std::vector<std::string> check_copies(int root, RegisteredObjectBase* obj, const std::string& t, std::vector<CopyFail>& fails)
+{
+  std::vector<std::string> routes;
+  if (!g_check_copies) return routes;
+  std::vector<CopyOut> copies;
+  const Root& R = roots()[root];
+  try
+    {
+      if (R.clone) { RegisteredObjectBase* c = R.clone(obj); if (c) copies.push_back({ "clone", shared_ptr<RegisteredObjectBase>(c) }); }
+      for (ConcreteFn f : concrete_table()) if (f(obj, copies)) break;
+    }
+  catch (std::exception& e) { sh_count("copy_route_threw_not_checked"); sh_observe(std::string("copying an object of ") + typeid(*obj).name() + " threw: " + short_text(e.what(), 200)); }
+  if (copies.empty()) { sh_count("used_objects_without_copy_route"); return routes; }
+  sh_count("used_objects_copied");
+  struct Pending { std::string route, detail; int res; };
+  std::vector<Pending> pending;
+  for (auto& c : copies)
+    {
+      routes.push_back(c.route);
+      sh_count("copies_of_used_object_checked");
+      sh_count("copies_by_" + c.route);
+      std::string tc;
+      try { tc = c.obj->parameter_info(); }
+      catch (std::exception& e) { fails.push_back({ "copy_cannot_print_itself", c.route, std::string("parameter_info() of the copy threw: ") + short_text(e.what(), 200) }); continue; }
+      if (no_blank_lines(tc) != no_blank_lines(t))
+        { fails.push_back({ "copy_prints_different_text", c.route, "parameter_info() of a copy of an object that was parsed and printed differs from the original's (" + vmc::str(tc.size()) + " instead of " + vmc::str(t.size()) + " characters): " + first_diff(t, tc) }); continue; }
+      std::string detail;
+      const int res = reparse_into(c.obj.get(), t, detail);
+      if (res == 3) { sh_count("copies_not_reparsed_not_a_ParsingObject"); continue; }
+      if (res == 0) { sh_count("copies_reparsed_ok"); continue; }
+      pending.push_back({ c.route, detail, res });
+    }
+  if (!pending.empty())
+    {
+      // the copy must do what the original does: the same text is parsed into the (used) original itself
+      std::string d0;
+      const int control = reparse_into(obj, t, d0);
+      for (auto& p : pending)
+        if (control != 0)
+          { sh_count("copies_reparse_unchecked_original_itself_not_reparsable"); sh_observe(std::string("re-parsing its own text into a used object of ") + typeid(*obj).name() + " fails for the original as well (not charged to the copy): " + d0); }
+        else
+          fails.push_back({ p.res == 1 ? "own_text_rejected_by_copy" : "copy_reparsed_prints_different_text", p.route,
+                            (p.res == 1 ? "the text the original prints (and accepts) is rejected when parsed into the copy: " : "the text the original prints, parsed into the copy, gives an object that prints differently: ") + p.detail });
+    }
+  return routes;
+}
+// minimal valid parameter texts for classes whose default object ('<start keyword> :=' only) is rejected by post_processing:
+// used for the round trip and the copies of part R (not as mutation seeds)
+static const char* alt_text(const std::string& label, const std::string& name)
+{
+  if (label == "Shape3D" && name == "Ellipsoid")
+    return "Ellipsoid Parameters:=\nradius-x (in mm):=10\nradius-y (in mm):=20\nradius-z (in mm):=30\norigin (in mm):={1,2,3}\nEND:=\n";
+  if (label == "Shape3D" && name == "Ellipsoidal Cylinder")
+    return "Ellipsoidal Cylinder Parameters:=\nradius-x (in mm):=10\nradius-y (in mm):=20\nlength-z (in mm):=30\norigin (in mm):={1,2,3}\nEND:=\n";
+  if (label == "ForwardProjectorByBin" && name == "Matrix")
+    return "Forward Projector Using Matrix Parameters:=\nmatrix type:=Ray Tracing\nRay Tracing Matrix Parameters:=\nEnd Ray Tracing Matrix Parameters:=\nEnd Forward Projector Using Matrix Parameters:=\n";
+  if (label == "BackProjectorByBin" && name == "Matrix")
+    return "Back Projector Using Matrix Parameters:=\nmatrix type:=Ray Tracing\nRay Tracing Matrix Parameters:=\nEnd Ray Tracing Matrix Parameters:=\nEnd Back Projector Using Matrix Parameters:=\n";
+  return nullptr;
 }
 
 // ================================================================================================ a KeyParser with a key of every type
@@ -634,7 +780,7 @@ static bool build_seed(const std::string& name, Seed& S)
         shared_ptr<Scanner> sc = small::cyl_scanner(8, 3);
         VectorWithOffset<int> nax(0, 0), mn(0, 0), mx(0, 0);
         nax[0] = 3; mn[0] = 0; mx[0] = 0;
-        shared_ptr<ProjDataInfoCylindricalArcCorr> pdi(new ProjDataInfoCylindricalArcCorr(sc, 4.F, nax, mn, mx, 6, 5));
+        shared_ptr<stir::ProjDataInfoCylindricalArcCorr> pdi(new stir::ProjDataInfoCylindricalArcCorr(sc, 4.F, nax, mn, mx, 6, 5));
         VectorWithOffset<float> radii(0, 5);
         for (int i = 0; i < 6; ++i) radii[i] = 150.F;
         pdi->set_ring_radii_for_all_views(radii);
@@ -674,6 +820,8 @@ struct Outcome
   std::vector<std::string> data_hashes;
   // plain header parse (E_HDR_PARSE): what the header object says about its per-data-set tables
   bool hdr_probe = false; std::string hdr_inconsistency; long hdr_tables_longer = 0;
+  // registered objects: what went wrong with the copies of the accepted (used) object
+  std::vector<CopyFail> copy_fails;
 };
 
 static std::string canon_exam(const ExamInfo& e)
@@ -915,6 +1063,7 @@ static void run_entry(const Seed& S, int entry, const std::string& text, Outcome
           if (!obj) { o.cls = REJECTED_NULL; break; }
           o.canon = obj->parameter_info();
           o.cls = ACCEPTED;
+          check_copies(S.root, obj.get(), o.canon, o.copy_fails);
           break;
         }
         case E_KP: {
@@ -1241,8 +1390,12 @@ static void oracle_fixpoint(const Seed& S, int entry, const std::string& kase, c
 {
   const std::string who = ";class=" + (entry == E_REG ? S.reg_name : std::string("AllTypes")) + ";key=" + mutated;
   Outcome o2;
+  g_check_copies = false;
   run_entry(S, entry, o.canon, o2);
+  g_check_copies = true;
   sh_count("oracle_fixpoint_checked");
+  for (const CopyFail& f : o.copy_fails)
+    sh_violation("clause=copy_of_used_object;" + ekey(entry) + ";what=" + f.what + ";route=" + f.route + ";class=" + S.reg_name, kase, "class " + S.reg_name + ", copy by " + f.route + ": " + f.msg);
   if (o2.cls != ACCEPTED)
     sh_violation("clause=inconsistent_object;" + ekey(entry) + ";what=own_parameter_text_rejected" + who, kase,
                  "class " + (entry == E_REG ? S.reg_name : std::string("AllTypes")) + ": the text was accepted, but the parameter_info() text of the resulting object is rejected when parsed: " + short_text(o2.what, 200));
@@ -1465,7 +1618,7 @@ static void run_mutants(vmc::Ctx& ctx, const Seed& S, const SeedLines& A, int en
 }
 
 // ================================================================================================ part R: round trip of every registered class
-struct RoundTrip { int status = -1; std::string start_kw, t1, t2, msg; };
+struct RoundTrip { int status = -1; std::string start_kw, t1, t2, msg; bool alt = false; std::vector<std::string> copy_routes; };
 // status: 0 ok; 1 start keyword not discovered; 2 default object rejected (post_processing / null); 3 default object: exception;
 //         4 own text rejected; 5 own text parses to an object that prints differently; 6 crashed / hung
 static const char* RT_NAMES[] = { "round_trip_equal", "skipped_start_keyword_not_discovered", "skipped_default_object_rejected", "skipped_default_object_exception", "own_text_rejected",
@@ -1477,7 +1630,8 @@ static RoundTrip round_trip(int root, const std::string& name, Crash* crash = nu
   const std::string id = vmc::str(root) + "/" + name;
   if (!crash && g_rt_cache.count(id)) return g_rt_cache[id];
   RoundTrip r;
-  SH->status = 6; SH->text_a[0] = SH->text_b[0] = SH->text_c[0] = 0;
+  SH->status = 6; SH->text_a[0] = SH->text_b[0] = SH->text_c[0] = 0; SH->copy_routes[0] = 0; SH->used_alt_text = 0;
+  const bool with_copies = crash != nullptr; // part R proper and its replay; not when only the text is needed as a mutation seed
   fflush(stdout); fflush(stderr);
   pid_t pid = fork();
   if (pid < 0) { perror("fork"); exit(2); }
@@ -1503,6 +1657,15 @@ static RoundTrip round_trip(int root, const std::string& name, Crash* crash = nu
           unique_ptr<RegisteredObjectBase> o1;
           try { o1.reset(R.read(&in0, name)); }
           catch (std::exception& e) { SH->status = 3; put(SH->text_a, sizeof SH->text_a, e.what()); _exit(0); }
+          if (!o1 && alt_text(R.label, name))
+            {
+              // the default object is rejected: set the class up from the harness' minimal valid text instead
+              const std::string w0 = g_warn.buf;
+              std::istringstream ina(alt_text(R.label, name));
+              try { o1.reset(R.read(&ina, name)); }
+              catch (std::exception& e) { SH->status = 3; put(SH->text_a, sizeof SH->text_a, e.what()); _exit(0); }
+              if (o1) SH->used_alt_text = 1; else g_warn.buf = w0 + " | minimal text also rejected: " + g_warn.buf;
+            }
           if (!o1) { SH->status = 2; put(SH->text_a, sizeof SH->text_a, short_text(g_warn.buf, 400)); _exit(0); }
           const std::string t1 = o1->parameter_info();
           put(SH->text_a, sizeof SH->text_a, t1);
@@ -1517,6 +1680,19 @@ static RoundTrip round_trip(int root, const std::string& name, Crash* crash = nu
           put(SH->text_b, sizeof SH->text_b, t2);
           SH->status = no_blank_lines(t1) == no_blank_lines(t2) ? 0 : 5;
           if (SH->status == 0 && t1 != t2) snprintf(SH->text_c, sizeof SH->text_c, "BLANKDIFF");
+          if (SH->status == 0 && with_copies)
+            {
+              // o2 has been parsed from text and has printed itself: copies of it must print / accept / reproduce the same text
+              const int st = SH->status;
+              SH->status = 6; // a crash while copying is a crash of this case
+              std::vector<CopyFail> fails;
+              const std::vector<std::string> routes = check_copies(root, o2.get(), t2, fails);
+              { std::string j; for (auto& x : routes) j += (j.empty() ? "" : ",") + x; put(SH->copy_routes, sizeof SH->copy_routes, j); }
+              const std::string rk = ";registry=" + R.label + ";name=" + name;
+              for (const CopyFail& f : fails)
+                sh_violation("clause=roundtrip_of_copy;what=" + f.what + ";route=" + f.route + rk, "seed=roundtrip/" + vmc::str(root) + "/" + name, R.label + " '" + name + "', copy by " + f.route + ": " + f.msg);
+              SH->status = st;
+            }
         }
       catch (std::exception& e) { SH->status = 3; put(SH->text_a, sizeof SH->text_a, e.what()); }
       catch (...) { SH->status = 3; put(SH->text_a, sizeof SH->text_a, "non-std exception"); }
@@ -1527,13 +1703,15 @@ static RoundTrip round_trip(int root, const std::string& name, Crash* crash = nu
   r.status = SH->status;
   if (!(WIFEXITED(status) && WEXITSTATUS(status) == 0)) { r.status = 6; Crash c = classify_crash(g_errfile, status); r.msg = c.detail; if (crash) *crash = c; }
   r.start_kw = SH->text_c; r.t1 = SH->text_a; r.t2 = SH->text_b;
+  r.alt = SH->used_alt_text != 0;
+  { std::string cr = SH->copy_routes, cur; for (char ch : cr) { if (ch == ',') { r.copy_routes.push_back(cur); cur.clear(); } else cur += ch; } if (!cur.empty()) r.copy_routes.push_back(cur); }
   g_rt_cache[id] = r;
   return r;
 }
 static bool build_reg_seed(int root, const std::string& name, Seed& S)
 {
   RoundTrip r = round_trip(root, name);
-  if (r.status != 0) return false;
+  if (r.status != 0 || r.alt) return false; // mutation seeds are the texts of default objects (as before); classes set up from a minimal text take part in part R only
   S = Seed();
   S.name = "reg/" + vmc::str(root) + "/" + name;
   S.kind = "reg"; S.text = r.t1; S.root = root; S.reg_name = name; S.entries = { E_REG };
@@ -1680,7 +1858,10 @@ int main(int argc, char** argv)
              "every alias; truncation at every byte; thorough: pairs (value replacement on a size-determining key, any line mutation); distinct/non-trivial = distinct (entry point, mutant text) different from the seed; "
              "the seeds include every kind of Interfile image header the library writes (single, dynamic, parametric, multi-data-set) in both tiers, each read through its matching readers "
              "(read_from_file<...>, read_interfile_dynamic_image / read_interfile_parametric_image on a stream) and through a plain InterfileImageHeader::parse whose per-data-set tables are compared with get_num_datasets(); "
-             "part R: every registered name of 22 registries: default object -> parameter_info -> parse -> parameter_info";
+             "part R: every registered name of 22 registries: default object (or, where that is rejected and the harness has a minimal valid text, that text) -> parameter_info -> parse -> parameter_info; "
+             "copies of a used object: the object that was parsed and has printed itself is copied by every route the class offers (clone() of the registry's root class; copy construction, assignment to a fresh and to a used object "
+             "for 21 concrete shape / prior / filter / normalisation / projector classes) and every copy must print the same text, accept it when parsed into the copy and print it again (one evaluation per copy in part R; "
+             "also applied to every accepted mutant of a registered-class text)";
   ctx.assume("outcome classes: accepted | rejected (null / false / stir::error() / any other exception); a crash, sanitizer report, refused allocation (single request > 64 MB or > 1 GB outstanding from an input <= 64 kB) or no result "
              "within 10 s (re-run alone with 60 s) is a violation");
   ctx.assume("accepted => sizes of the object == 'matrix size' keys of the mutant text as read by the harness' own reference reader (only when those keys are clean unsigned integers assigned consistently, no ${...}, "
@@ -1693,6 +1874,8 @@ int main(int argc, char** argv)
   ctx.assume("KeyParser slot model (AllTypes seed): a removed line leaves the default, an untouched line its seed value, key[j] := v is stored at element j; the mutated line's own slot is not checked for value replacements");
   ctx.assume("parameter texts are compared modulo blank lines");
   ctx.assume("registered classes: accepted => parameter_info() of the object parses back to an object printing the same text; part R: a class is skipped (counted, reason recorded) when the text '<start keyword> :=' is rejected, i.e. it cannot be default-constructed without external data");
+  ctx.assume("copies of a used object: a copy is only required to do what the original does: when re-parsing the text into the used original itself is rejected or prints differently, the same outcome for a copy is counted as unchecked, not as a violation; "
+             "a copy route that throws is recorded and not charged");
   ctx.assume("an error raised only when the elements of accepted projection data are read (lazy reading) counts as reported, not as silent acceptance");
   g_timeout = 10;
 
@@ -1725,6 +1908,7 @@ int main(int argc, char** argv)
           if (r.status == 4) ctx.violation("clause=roundtrip;what=own_text_rejected" + rk, ctx.replay, r.t2);
           if (r.status == 5) ctx.violation("clause=roundtrip;what=own_text_differs" + rk, ctx.replay, first_diff(r.t1, r.t2));
           if (r.status == 6) ctx.violation("crash;kind=" + c.kind + ";site=" + c.site, ctx.replay, r.msg);
+          sh_drain(ctx);
           return ctx.finish();
         }
       else ok = build_seed(sn, S);
@@ -1757,6 +1941,10 @@ int main(int argc, char** argv)
         ctx.count(std::string("roundtrip_") + RT_NAMES[rt.status]);
         const std::string kase = "seed=roundtrip/" + vmc::str(r) + "/" + name, rk = ";registry=" + roots()[r].label + ";name=" + name;
         if (rt.status == 0 && rt.start_kw == "BLANKDIFF") { ctx.count("roundtrip_equal_up_to_blank_lines"); ctx.observe("round trip of " + roots()[r].label + " '" + name + "' reproduces the text up to blank lines only (not counted as a difference)"); }
+        if (rt.alt) { ctx.count("roundtrip_classes_set_up_from_minimal_text"); ctx.observe("part R: default object of " + roots()[r].label + " '" + name + "' is rejected; the class takes part with the harness' minimal valid text"); }
+        for (const std::string& route : rt.copy_routes) { ctx.count("evaluations"); ctx.count("roundtrip_copies_of_used_object"); ctx.nontrivial("roundtrip_copy" + rk + ";route=" + route + rt.t1); }
+        if (rt.status == 0 && rt.copy_routes.empty()) ctx.count("roundtrip_classes_without_copy_route");
+        sh_drain(ctx);
         if (rt.status == 0) { ctx.nontrivial("roundtrip" + rk + rt.t1); if (ctx.samples.size() < 2) ctx.sample("round trip " + roots()[r].label + " '" + name + "': " + vmc::str(refp::physical_lines(rt.t1).size()) + " lines of parameter text reproduced"); }
         if (rt.status >= 1 && rt.status <= 3) ctx.observe("part R skipped " + roots()[r].label + " '" + name + "': " + RT_NAMES[rt.status] + ": " + short_text(rt.status == 1 ? rt.start_kw : rt.t1, 160));
         if (rt.status == 4) ctx.violation("clause=roundtrip;what=own_text_rejected" + rk, kase, "the parameter_info() text of the default object is rejected: " + short_text(rt.t2, 300) + " | text: " + short_text(rt.t1, 400));
